@@ -42,6 +42,16 @@ def run_property(pid, tier, root=None, overrides=None, quiet=False):
         err = str(e)
     except Exception:
         err = "internal error in the analyser: " + traceback.format_exc()
+    try:
+        repo = ctx.repo
+        if getattr(repo, "renamed", None):
+            rep.info("private members renamed relative to the reference tree were renamed back before analysis: %s" % ", ".join(repo.renamed))
+        if getattr(repo, "folded_temps", 0):
+            rep.info("%d new single-use temporaries were folded into their use (sa/tempinline.py)" % repo.folded_temps)
+        if getattr(repo, "inlined", None):
+            rep.info("new private helpers inlined into their callers: %s" % ", ".join(repo.inlined))
+    except Exception:
+        pass
     un = rep.unmet_floors()
     if un and (err is None or err.startswith("internal error")):
         tail = ("  [followed by: %s]" % err.strip().splitlines()[-1]) if err else ""
